@@ -104,9 +104,6 @@ Proof.
   apply negb_true_iff in H1. rewrite H1. cbn [orb]. apply IH. exact H2.
 Qed.
 
-Lemma dc_never T l : dc_sig_algs_forbidden T l = false.
-Proof. unfold dc_sig_algs_forbidden. induction (t_dc_forbidden T) as [|t ts IH]; cbn [existsb list_eq_tuple orb]; auto. Qed.
-
 Ltac zprep :=
   repeat match goal with
   | H : (_ <? _) = false |- _ => apply Z.ltb_ge in H
@@ -173,7 +170,7 @@ Notation W := (V x2 x5 x6 x7 x8 x9 x10 x11 x12 x13 x14 x15 x16 x17 x18 x19 x20 x
 
 Lemma accepted_in_enforced_domain_V x0 x1 x3 x4 v' :
   cvalidate T I (W x0 x1 x3 x4) c = Ok v' ->
-  forallb (fun d => dom_enforced T d (W x0 x1 x3 x4, c)) all_dims = true.
+  in_domain T (W x0 x1 x3 x4, c) = true.
 Proof.
   intros H. destruct (cvalidate_V_inv T I c _ _ _ _ _ _ _ _ _ _ _ _ _ _ _ _ _ _ x0 x1 x3 x4 v' H)
     as [y4 [EA [Hy [EE [EC [NI [NC ->]]]]]]].
@@ -181,13 +178,14 @@ Proof.
     sanityCheckDHSettings, sanityCheckECDHSettings, sanityCheckProtocolVersions_raises in EA.
   unfold sanityCheckExtensions, sanityCheckEMSExtension in EE.
   unfold cchecks_C, sanityCheckPsks, sanityCheckTicketSettings in EC.
+  unfold dc_sig_algs_forbidden in EE.
   cbv zeta in EA, EE, EC.
   cbn [nth V F_cipherNames F_macNames F_keyExchangeNames F_cipherImplementations F_versions F_ec_point_formats
        F_ticketKeys F_certificate_compression_send F_certificate_compression_receive F_dc_sig_algs F_certificateTypes
        F_rsaSigHashes F_rsaSchemes F_dsaSigHashes F_ecdsaSigHashes F_more_sig_schemes F_virtual_hosts F_eccCurves
        F_dhGroups F_keyShares F_pskConfigs F_psk_modes] in EA, EE, EC.
   split_all.
-  unfold all_dims. cbn [forallb dom_enforced dom]. unfold VG, VS.
+  unfold in_domain, all_dims. cbn [forallb dom]. unfold VG, VS.
   cbn [fst snd nth V F_cipherNames F_macNames F_keyExchangeNames F_cipherImplementations F_versions F_ec_point_formats
        F_ticketKeys F_certificate_compression_send F_certificate_compression_receive F_dc_sig_algs F_certificateTypes
        F_rsaSigHashes F_rsaSchemes F_dsaSigHashes F_ecdsaSigHashes F_more_sig_schemes F_virtual_hosts F_eccCurves
@@ -204,7 +202,8 @@ Proof.
       destruct b; [apply all_known_sub; exact H|reflexivity] end.
   - match goal with H : dhParams_bad (dhParams c) = false |- _ => unfold dhParams_bad in H; destruct (dhParams c) as [[|a [|b [|d r]]]|];
       try reflexivity; try discriminate H end.
-    apply orb_false_iff in K27. destruct K27 as [A B]. apply negb_false_iff in A. apply negb_false_iff in B. rewrite A, B. reflexivity.
+    match goal with Hq : negb (is_int _) || negb (is_int _) = false |- _ => apply orb_false_iff in Hq; destruct Hq as [A B] end.
+    apply negb_false_iff in A. apply negb_false_iff in B. rewrite A, B. reflexivity.
   - unfold ver_le. match goal with H : ver_lt (maxVersion c) (minVersion c) = false |- _ => rewrite H; reflexivity end.
   - destruct (record_size_limit c); [|reflexivity]. bfin.
   - apply forallb_and; [apply not_allowed_len_false; assumption|apply existsb_false_forallb; assumption].
@@ -231,6 +230,7 @@ Proof.
     change (nth F_pskConfigs (W x0 x1 x3 x4) []) with x20. change (nth F_ticketKeys (W x0 x1 x3 x4) []) with x6.
     only_auto.
     - apply only_len. eapply forallb_weaken; [|eassumption]. intros v Hv. rewrite Hv. reflexivity.
+    - apply only_len. eapply forallb_weaken; [|eassumption]. intros v Hv. rewrite Hv. apply orb_true_r.
     - apply only_len. eapply forallb_weaken; [|eassumption]. intros v Hv. rewrite Hv. apply orb_true_r. }
   intros Hc.
   destruct (cchecks_A T (W x0 x1 x3 x4) c) as [[]|ea] eqn:EA; [|injection Hc as <-; apply OA; reflexivity].
@@ -291,7 +291,7 @@ Proof.
         unfold ver_le in Hx; apply negb_true_iff in Hx; exact Hx end. }
   rewrite EA.
   assert (EE : sanityCheckExtensions T (W x0 x1 x3 x4) c = Ok tt).
-  { unfold sanityCheckExtensions, sanityCheckEMSExtension. cbv zeta.
+  { unfold sanityCheckExtensions, sanityCheckEMSExtension, dc_sig_algs_forbidden. cbv zeta.
     cbn [nth V F_ec_point_formats F_dc_sig_algs F_certificate_compression_send F_certificate_compression_receive].
     repeat (apply bind_intro).
     all: try solve [apply guard_ok; match goal with Hx : ?x = true |- negb ?x = false => rewrite Hx; reflexivity end].
@@ -300,24 +300,22 @@ Proof.
     all: try solve [apply guard_ok; apply forallb_filter_nil; assumption].
     all: try solve [unfold compression_check; match goal with |- (if isnil ?l then _ else _) = _ => destruct l; [reflexivity|apply sub_all_known; assumption] end].
     - apply guard_ok. destruct (record_size_limit c); [|reflexivity].
-      match goal with Hx : (_ <=? _) && (_ <=? _) = true |- _ => rewrite Hx; reflexivity end.
-    - apply guard_ok. apply dc_never. }
+      match goal with Hx : (_ <=? _) && (_ <=? _) = true |- _ => rewrite Hx; reflexivity end. }
   assert (EC : cchecks_C T (W x0 x1 x3 x4) c = Ok tt).
   { unfold cchecks_C, sanityCheckPsks, sanityCheckTicketSettings. cbv zeta.
     cbn [nth V F_pskConfigs F_psk_modes F_ticketKeys].
     match goal with Hx : forallb (fun x => has_len_in x [2; 3] && negb (bad_psk_hash x)) x20 = true |- _ =>
       apply forallb_split in Hx; destruct Hx as [P1 P2] end.
     rewrite (not_allowed_len_conv _ _ P1). cbn [bind guard]. rewrite (forallb_negb_existsb _ _ P2). cbn [bind guard].
+    match goal with Hx : forallb (fun x => has_len_in x [ticket_key_len (ticketCipher c)]) x6 = true |- _ =>
+      pose proof Hx as TK2 end.
     assert (TK : forallb (fun x => has_len_in x [16; 32]) x6 = true).
-    { match goal with Hx : forallb (fun x => has_len_in x (ticket_key_len (ticketCipher c))) x6 = true |- _ =>
-        eapply forallb_weaken; [|exact Hx] end.
+    { eapply forallb_weaken; [|exact TK2].
       intros v. unfold has_len_in. destruct (py_len v) as [n|]; [|auto]. unfold ticket_key_len.
-      destruct (ticketCipher c); auto.
-      destruct (existsb (String.eqb s) ["aes128gcm"; "aes128ccm"; "aes128ccm_8"]%string).
-      - cbn [existsb]. intros Hn. rewrite orb_false_r in Hn. rewrite Hn. reflexivity.
-      - destruct (existsb (String.eqb s) ["aes256gcm"; "aes256ccm"; "aes256ccm_8"; "chacha20-poly1305"]%string); auto.
-        cbn [existsb]. intros Hn. rewrite orb_false_r in Hn. rewrite Hn. apply orb_true_r. }
-    rewrite (not_allowed_len_conv _ _ TK). cbn [bind guard].
+      destruct (in_tab (ticketCipher c) aes128_ticket_ciphers); cbn [existsb]; intros Hn; rewrite orb_false_r in Hn;
+        rewrite Hn; [reflexivity|apply orb_true_r]. }
+    rewrite (not_allowed_len_conv _ _ TK). cbn [bind guard]. rewrite (not_allowed_len_conv _ _ TK2). cbn [bind guard].
+
     repeat (apply bind_intro).
     all: try solve [apply sub_all_known; assumption].
     all: try solve [apply guard_ok; match goal with Hx : ?x = true |- negb ?x = false => rewrite Hx; reflexivity end].
@@ -338,7 +336,7 @@ Qed.
 End Dom.
 
 Lemma accepted_in_enforced_domain T I v c v' :
-  List.length v = NF -> cvalidate T I v c = Ok v' -> forallb (fun d => dom_enforced T d (v, c)) all_dims = true.
+  List.length v = NF -> cvalidate T I v c = Ok v' -> in_domain T (v, c) = true.
 Proof.
   intros Len H.
   destruct v as [|x0 [|x1 [|x2 [|x3 [|x4 [|x5 [|x6 [|x7 [|x8 [|x9 [|x10 [|x11 [|x12 [|x13 [|x14 [|x15 [|x16
@@ -366,59 +364,68 @@ Proof.
 Qed.
 
 (* outside the domain of a dimension that validate() enforces: rejected, with ValueError *)
-Lemma rejects_outside T I v c d :
-  List.length v = NF -> typed (v, c) = true -> dom_enforced T d (v, c) = false -> In d all_dims ->
-  cvalidate T I v c = Err ValueError.
+Lemma forallb_false_dim T v : forallb (fun d => dom T d v) all_dims = false -> exists d, dom T d v = false.
 Proof.
-  intros Len Ty D Hin.
-  destruct (cvalidate T I v c) as [v'|e] eqn:E.
-  - pose proof (accepted_in_enforced_domain T I v c v' Len E) as A. rewrite forallb_forall in A.
-    rewrite (A d Hin) in D. discriminate D.
-  - f_equal. eapply typed_errors; eassumption.
+  generalize all_dims. induction l as [|d ds IH]; cbn [forallb]; [discriminate|].
+  destruct (dom T d v) eqn:E; [exact IH|eauto].
 Qed.
-
-
-
-(* ---- on the by-reference model --------------------------------------------------------------- *)
-Lemma enforced_eq_dom T d v : is_lax d = false -> dom_enforced T d v = dom T d v.
-Proof. destruct d; cbn; intros H; try reflexivity; discriminate H. Qed.
 
 Lemma all_dims_complete d : In d all_dims.
 Proof. destruct d; cbn; tauto. Qed.
 
-Lemma validate_rejects_unaliased T I h s d :
-  wf h s = true -> impl_unaliased s -> typed (view h s) = true ->
-  is_lax d = false -> dom T d (view h s) = false ->
+Lemma rejects_outside T I v c d :
+  List.length v = NF -> typed (v, c) = true -> dom T d (v, c) = false -> cvalidate T I v c = Err ValueError.
+Proof.
+  intros Len Ty D.
+  destruct (cvalidate T I v c) as [v'|e] eqn:E.
+  - pose proof (accepted_in_enforced_domain T I v c v' Len E) as A. unfold in_domain in A. rewrite forallb_forall in A.
+    rewrite (A d (all_dims_complete d)) in D. discriminate D.
+  - f_equal. eapply typed_errors; eassumption.
+Qed.
+
+(* ---- on the by-reference model --------------------------------------------------------------- *)
+Lemma validate_rejects_heap T I h s d :
+  wf h s = true -> typed (view h s) = true -> dom T d (view h s) = false ->
   snd (validate T I h s) = Err ValueError.
 Proof.
-  intros W U Ty Lx D.
-  pose proof (validate_refines_contents_lemma T I h s W U) as R.
+  intros W Ty D.
+  pose proof (validate_refines_contents_lemma T I h s W) as R.
   assert (Len : List.length (lists h s) = NF) by (rewrite lists_length; apply (wf_length h s W)).
-  rewrite <- (enforced_eq_dom T d _ Lx) in D.
-  pose proof (rejects_outside T I (lists h s) (sc s) d Len Ty D (all_dims_complete d)) as Rej.
+  pose proof (rejects_outside T I (lists h s) (sc s) d Len Ty D) as Rej.
   destruct (validate T I h s) as [h' [s'|e]]; cbn [snd].
   - destruct R as [R _]. rewrite Rej in R. discriminate R.
   - rewrite Rej in R. injection R as <-. reflexivity.
 Qed.
 
-Lemma validate_accepts_unaliased T I h s :
-  wf h s = true -> impl_unaliased s -> typed (view h s) = true ->
+Lemma validate_accepts_heap T I h s :
+  wf h s = true -> typed (view h s) = true ->
   in_domain T (view h s) = true -> something_supported I (view h s) = true ->
   is_ok (snd (validate T I h s)) = true.
 Proof.
-  intros W U Ty D S.
-  pose proof (validate_refines_contents_lemma T I h s W U) as R.
+  intros W Ty D S.
+  pose proof (validate_refines_contents_lemma T I h s W) as R.
   assert (Len : List.length (lists h s) = NF) by (rewrite lists_length; apply (wf_length h s W)).
   destruct (accepts_inside T I (lists h s) (sc s) Len Ty D S) as [v' Acc].
   destruct (validate T I h s) as [h' [s'|e]]; cbn [snd is_ok]; [reflexivity|].
   rewrite Acc in R. discriminate R.
 Qed.
 
-Lemma validate_typed_errors_unaliased T I h s h' e :
-  wf h s = true -> impl_unaliased s -> typed (view h s) = true ->
-  validate T I h s = (h', Err e) -> e = ValueError.
+Lemma validate_typed_errors_heap T I h s h' e :
+  wf h s = true -> typed (view h s) = true -> validate T I h s = (h', Err e) -> e = ValueError.
 Proof.
-  intros W U Ty H.
-  pose proof (validate_refines_contents_lemma T I h s W U) as R. rewrite H in R.
+  intros W Ty H.
+  pose proof (validate_refines_contents_lemma T I h s W) as R. rewrite H in R.
   eapply typed_errors; [|exact Ty|exact R]. rewrite lists_length. apply (wf_length h s W).
+Qed.
+
+(* accepted <-> inside the documented domains, for typed objects on an installation that supports
+   something of what they name *)
+Lemma validate_accepts_iff T I h s :
+  wf h s = true -> typed (view h s) = true -> something_supported I (view h s) = true ->
+  is_ok (snd (validate T I h s)) = in_domain T (view h s).
+Proof.
+  intros W Ty S. destruct (in_domain T (view h s)) eqn:D.
+  - apply validate_accepts_heap; assumption.
+  - unfold in_domain in D. destruct (forallb_false_dim T (view h s) D) as [d Hd].
+    rewrite (validate_rejects_heap T I h s d W Ty Hd). reflexivity.
 Qed.
